@@ -122,7 +122,7 @@ func (g *Genesis) Mutate(bt *Built, m string, pos int, other *Account) []byte {
 
 // Encodings of the same signed content (property C05): different bytes that parse to the
 // same transaction.
-var Encodings = []string{"identical", "whitespace", "keyOrder", "extraField", "duplicateKey", "keyCase", "extraSignature", "junkSignatureField"}
+var Encodings = []string{"identical", "whitespace", "keyOrder", "extraField", "duplicateKey", "keyCase", "extraSignature", "junkSignatureField", "innerWhitespace", "innerExtraField"}
 
 func Reencode(b []byte, enc string) []byte {
 	switch enc {
@@ -181,6 +181,24 @@ func Reencode(b []byte, enc string) []byte {
 			return nil
 		}
 		st.Signatures = append(st.Signatures, st.Signatures[0])
+		return reserialize(st)
+	case "innerWhitespace", "innerExtraField":
+		// the payload (the "data" bytes) is JSON itself: another encoding of it inside a canonically encoded envelope.
+		// For native kinds the signature is over these bytes and breaks; an OLVM signature is over the fields.
+		st := decodeSigned(b)
+		var buf bytes.Buffer
+		if enc == "innerWhitespace" {
+			if err := json.Indent(&buf, st.Data, "", " "); err != nil {
+				return nil
+			}
+		} else {
+			if len(st.Data) < 2 || st.Data[len(st.Data)-1] != '}' {
+				return nil
+			}
+			buf.Write(st.Data[:len(st.Data)-1])
+			buf.WriteString(`,"zzz_unknown":1}`)
+		}
+		st.Data = buf.Bytes()
 		return reserialize(st)
 	case "junkSignatureField":
 		// altered unsigned part: the signature list is unchanged in content but one signature
